@@ -115,6 +115,7 @@ func gen(tier string, seed int64) []mon.Case {
 	for k, w := range legalWitnesses() {
 		cs = append(cs, mon.MkCase(fmt.Sprintf("c02/witness-legal/%02d", k), w))
 	}
+	cs = append(cs, mon.MkCase("c02/errforms/00", Desc{Kind: "errforms"}))
 	total := EnumTotal(b.enumLen)
 	for k, st := 0, int64(0); st < total; k, st = k+1, st+int64(b.enumBatch) {
 		n := int64(b.enumBatch)
@@ -145,6 +146,8 @@ func run(c mon.Case) mon.Result {
 		return runLegal(d.Seed, d.N, d.Big)
 	case "mut":
 		return runMut(d.Seed, d.N)
+	case "errforms":
+		return runErrForms()
 	case "witness":
 		return runWitness(d.Version, d.RawQ, d.PayloadQ)
 	case "drv":
